@@ -135,7 +135,12 @@ def ddsmt_main():
         # copy binaries to temp folder
         tmpfiles.copy_binaries()
         # perform golden runs to see what the solver is doing
-        checker.do_golden_runs()
+        try:
+            checker.do_golden_runs()
+        except OSError as e:
+            # only starting a command tells whether it can be started at all
+            # (script without '#!' line, binary for another platform)
+            raise DDSMTException(f'Command could not be executed: {e}')
 
         orig_exprs = exprs
         # do the reduction
